@@ -58,6 +58,23 @@ Theorem C11_copy : forall rs src ws bsz,
 Proof. exact copy_correct. Qed.
 Print Assumptions C11_copy.
 
+(* BufWriter::write_vectored: the segments go BEHIND the bytes already waiting in the
+   buffer; an Ok(k) has accepted exactly the first k bytes of their concatenation;
+   nothing waiting is overwritten, lost, duplicated or reordered *)
+Theorem C11_bufwriter_write_vectored : forall ws b log segs,
+  bwf b ->
+  exists o b' log' ws',
+    bw_write_vectored ws b log segs = Ok (o, b', log', ws') /\ bwf b' /\
+    vcap (bvec b') = vcap (bvec b) /\
+    match o with
+    | OOk k => k <= length (concat segs) /\
+               sink_bytes log' ++ buf_pending b' =
+               (sink_bytes log ++ buf_pending b) ++ firstn k (concat segs)
+    | OErr _ => sink_bytes log' ++ buf_pending b' = sink_bytes log ++ buf_pending b
+    end.
+Proof. exact bw_write_vectored_spec. Qed.
+Print Assumptions C11_bufwriter_write_vectored.
+
 (* BufWriter refines the identity stream transformer:
    (bytes the inner writer saw) ++ (bytes buffered) = bytes accepted, always *)
 Theorem C11_bufwriter_write : forall ws b log data,
